@@ -27,6 +27,8 @@ def main():
     ap.add_argument("--out", default=os.path.join(VERIF, "seeded",
                                                   "MATRIX.md"))
     ap.add_argument("--workers", type=int, default=16)
+    ap.add_argument("--own", action="store_true",
+                    help="only the check of the seed's own property")
     a = ap.parse_args()
     with open(os.path.join(VERIF, "MANIFEST.json")) as f:
         props = [c["property_id"] for c in json.load(f)["checks"]]
@@ -53,6 +55,9 @@ def main():
                 continue
             row = {}
             for pid in props:
+                if a.own and not sid.startswith(pid + "-"):
+                    row[pid] = {"exit": -1, "first": "not run"}
+                    continue
                 env = dict(os.environ)
                 env["ZCSIM_REPO"] = root
                 env.pop("PYTHONHASHSEED", None)
@@ -74,7 +79,7 @@ def main():
             shutil.rmtree(root, ignore_errors=True)
             subprocess.run(["git", "-C", REPO, "worktree", "prune"],
                            capture_output=True)
-    sym = {0: ".", 1: "V", 2: "H"}
+    sym = {0: ".", 1: "V", 2: "H", -1: " "}
     lines = ["# Seeded changes x quick checks",
              "",
              "V = the check reports a VIOLATION, . = no violation, H = "
